@@ -633,6 +633,6 @@ def check_take(case):
         out.append(fail('C02.take.row_sums_dispatch_of_covered_steps', 'assets:define_restr', case, params, 'row coefficients differ'))
     if len(want_b) and not np.allclose(op.b, want_b, rtol=1e-9):
         out.append(fail('C08.take.prorated_by_covered_duration', 'assets:define_restr', case, params, f'rhs {np.round(op.b, 6).tolist()} expected {np.round(want_b, 6).tolist()}'))
-    if op.cType != ('L' if kind == 'min' else 'U') * len(want_rows):
+    if (op.cType or '') != ('L' if kind == 'min' else 'U') * len(want_rows):
         out.append(fail('C02.take.row_type', 'assets:define_restr', case, params, op.cType))
     return out
